@@ -25,7 +25,7 @@ class C15(PropBase):
                            queries=all_queries([1, 2, 3], 3), min_t=None)
 
     def n_random(self, tier):
-        return 600 if tier == 'quick' else 12000
+        return 600 if tier == 'quick' else 40000
 
     def random_cases(self, rnd, n):
         for _ in range(n):
